@@ -12,6 +12,14 @@ func MonitorsFor(prop string) []Monitor {
 		return []Monitor{&monC04{}}
 	case "C05":
 		return []Monitor{&monC05{}}
+	case "C06":
+		return []Monitor{&monC06{}}
+	case "C07":
+		return []Monitor{&monC07{}}
+	case "C08":
+		return []Monitor{&monC08{}}
+	case "C09":
+		return []Monitor{&monC09{}}
 	case "C17":
 		return []Monitor{&monC17{}}
 	}
